@@ -80,8 +80,8 @@ ASSUMPTIONS = ["float slots: /calculate must give the shortest decimal text that
                "sees them (as assert_near does); for values needing 8-9 digits only equal / far-beyond expectations are "
                "generated, so float32 rounding of the difference cannot decide a verdict",
                "generated rule systems are ranked in the sense of C01 (no self-dependence, eternal variables have no formula)",
-               "values are exactly representable (ints below 2^22, floats multiples of 1/64): float rendering "
-               "float(str(float32)) and the float32 arithmetic of assert_near are then exact; other cases are skipped and counted",
+               "values of rule-language variables are integers below 2^22 (exact in int32 / float32); a case whose rule arithmetic is "
+               "not exact (non-integral DIVIDE) is skipped and counted",
                "YAML margins are >= 0; expected dates are full ISO dates; expectations of numeric variables are numbers "
                "(no numexpr strings); bool outputs are compared numerically as 0/1 by the code (modelled; an absolute "
                "margin >= 1 accepts a wrong bool: unclaimed stream)",
